@@ -141,6 +141,9 @@ type Opts struct {
 	Avoid map[string]bool
 	// Inject adds the minimal witness of one known-finding class (dedicated projects only).
 	Inject string
+	// FirstFileDir, when set, is the directory of the FIRST schema file (the others stay in Dir):
+	// schema sources inside and outside the exec directory in one project
+	FirstFileDir string
 }
 
 type Schema struct {
